@@ -343,7 +343,11 @@ def _build_fiber(tree, depth, dflt):
 def _run_yaml(case):
     ft = H.ft()
     Fiber, Tensor, Payload = ft.Fiber, ft.Tensor, ft.Payload
-    obj = _build_yaml_obj(case)
+    obj, e = _try(lambda: _build_yaml_obj(case))
+    if e:   # constructing the object (fromUncompressed / fromFiber / a transform) failed: an observation
+        case["orig"] = None
+        case["impl"], case["side"], case["implerr"] = {"built": False}, {}, {"build": e}
+        return case
     is_tensor = isinstance(obj, Tensor)
     root = obj.getRoot() if is_tensor else obj
     if is_tensor:
@@ -556,7 +560,7 @@ def _attribute(case, clause):
                 and impl.get("shape") == [case["dims"][0]]):
             return CLASSES[0]
     if op == "yaml":
-        orig = case.get("orig", {})
+        orig = case.get("orig") or {}
         tup = _has_tuple(orig.get("tree")) or any(isinstance(x, list) for x in orig.get("shape", []))
         if clause == "yaml-loads" and tup:
             return CLASSES[2]
